@@ -19,6 +19,7 @@ func init() {
 		Complete(c, "R-COMPLETE", libPkgs(c))
 		PanicCapture(c, "R-PANIC", libPkgs(c), map[string]bool{"future.Apply": true, "future.Apply2": true})
 		SubOrder(c, "R-SUBORDER", []*packages.Package{c.Pkg("future"), c.Pkg("fp")}, 2)
+		FutStop(c, "R-FUTSTOP", []*packages.Package{c.Pkg("future"), c.Pkg("fp")}, 1)
 	})
 }
 
